@@ -15,7 +15,7 @@ RULE = (
 )
 REQUIRED = ["rt_bipartite_str_ids", "rt_bipartite_int_ids", "rt_strings", "rt_species_graph",
             "export_bipartite_checked", "export_species_checked", "from_str_checked",
-            "shared_pair_networks", "multi_digit_coeff_networks", "networks_with_id_equal_to_species_label"]
+            "shared_pair_networks", "multi_digit_coeff_networks", "networks_with_id_equal_to_species_label", "networks_with_formula_like_labels"]
 ASSUMPTIONS = [
     "labels follow the documented grammar; rule labels contain no whitespace",
     "species-graph round trip only claimed for networks whose reactions all have both sides; rules not compared there",
@@ -164,7 +164,7 @@ def check_network(ctx, net, ids=None, mol=None, tag=""):
     # ---- bipartite ---- #
     labels_vs_ids_clash = bool(set(W.species_of(net)) & set(real_ids))
     for integer_ids in (False, True):
-        for spx, rpx in (("S:", "R:"), (None, None)):
+        for spx, rpx in (("S:", "R:"), ("sp", "rx"), (None, None)):
             if spx is None and (integer_ids or labels_vs_ids_clash):
                 continue
             for iso in (True, False):
@@ -320,12 +320,20 @@ def run(ctx):
                                max_coeff=rng.choice([1, 3, 3, 12, 120]),
                                rules=rng.choice([["r", "R1", "k_2", "hydrolysis"], RULE_TOKENS])[: rng.randint(1, 4)],
                                p_dup=0.15)
+        if rng.random() < 0.35:
+            # labels that are legal identifiers but look like numbers-with-exponents, formulas or prefixed names
+            pool_l = ["E1S", "E2P", "e5a", "H2O", "CO2", "NAD", "X1", "R2D2", "E10", "spA", "A", "rxB", "S1", "E1"]
+            names = W.species_of(net)
+            mp = dict(zip(names, rng.sample(pool_l, len(names)))) if len(names) <= len(pool_l) else None
+            if mp:
+                net = W.rename(net, mp)
+                ctx.count("networks_with_formula_like_labels")
         ids = None
         sp = W.species_of(net)
         if rng.random() < 0.5:
             pool = [f"e{j}" for j in range(len(net))] + [f"r_{j + 1}" for j in range(len(net))] + ["10", "a-b"]
             if rng.random() < 0.4:
-                pool += sp   # reactions named like a species (e.g. after their enzyme, which also takes part)
+                pool = sorted(set(pool) | set(sp))   # reactions named like a species (e.g. after their enzyme, which also takes part)
                 ctx.count("networks_with_ids_from_species_names")
             ids = rng.sample(pool, len(net))
             if set(ids) & set(sp):
